@@ -309,7 +309,7 @@ impl Ctx<'_> {
     }
 }
 
-fn replay(beh: &Value, line: usize, conc: &Conc, rep: &mut Report) {
+fn replay(beh: &Value, line: usize, conc: &Conc, rep: &mut Report, structure_only: bool) {
     let kind = s(beh, "kind");
     let par = &beh["par"];
     let steps = beh["steps"].as_array().unwrap();
@@ -323,12 +323,13 @@ fn replay(beh: &Value, line: usize, conc: &Conc, rep: &mut Report) {
     let mut skip = make(kind, par, conc, None);
     // C12: the Quantity variant of a filter produces the same numbers as the f32 variant
     let mut variant = match kind {
+        _ if structure_only => None,
         "EWMA" => Some(make("EWMAQ", par, conc, None)),
         "MA" => Some(make("MAQ", par, conc, None)),
         _ => None,
     };
     // C04: the same controller assembled from primitive streams
-    let mut composite = if kind == "PID" { Some(make_composite(par, conc)) } else { None };
+    let mut composite = if kind == "PID" && !structure_only { Some(make_composite(par, conc)) } else { None };
     let ignores_absent = matches!(kind, "EWMA" | "EWMAQ" | "MA" | "MAQ" | "AccToState" | "VelToState" | "PosToState");
     let mut cur_cmd: Option<Command> = if kind == "CmdPID" { Some(cmd_of(&par["cmd"], conc)) } else { None };
     let mut cmdk = if kind == "CmdPID" { i(&par["cmd"], "k") } else { 0 };
@@ -407,7 +408,7 @@ fn replay(beh: &Value, line: usize, conc: &Conc, rep: &mut Report) {
                 let ev_ = exp_vals(&exp["v"]);
                 *tt == conc.time(i(exp, "t")).0
                     && vals.len() == ev_.len()
-                    && vals.iter().zip(ev_.iter()).zip(f.iter()).all(|((g, e), k)| close(*g, e * k, mag * k))
+                    && (structure_only || vals.iter().zip(ev_.iter()).zip(f.iter()).all(|((g, e), k)| close(*g, e * k, mag * k)))
             }
             _ => false,
         };
@@ -502,6 +503,8 @@ fn main() {
         .map(Conc::from_json)
         .collect();
     let only: Option<usize> = args.iter().position(|a| a == "--only").map(|p| args[p + 1].parse().unwrap());
+    // --structure: compare outcome category, error identity, timestamp, twins and purity, not the numbers
+    let structure_only = args.iter().any(|a| a == "--structure");
     let mut rep = Report::new();
     let mut seen = std::collections::HashSet::new();
     for (ln, l) in lines.iter().enumerate() {
@@ -534,7 +537,7 @@ fn main() {
             if matches!(s(&beh, "kind"), "EWMA" | "EWMAQ") && c.tick_pow2 != 0 {
                 continue;
             }
-            replay(&beh, ln, c, &mut rep);
+            replay(&beh, ln, c, &mut rep, structure_only);
         }
     }
     rep.finish();
